@@ -582,8 +582,8 @@ pub fn check(ctx: &Ctx) {
     ];
     if !quick {
         // a line ending of each kind on every alignment around the 512 / 1024 windows
-        for window in [512usize, 1024] {
-            for off in window - 4..=window + 2 {
+        for window in if deep { vec![512usize, 1024, 1536, 8192] } else { vec![512usize, 1024] } {
+            for off in window - if deep { 8 } else { 4 }..=window + if deep { 4 } else { 2 } {
                 for tail in [&b"\r"[..], b"\n", b"\r\n", b"\r\r\n"] {
                     docs.push([&vec![b't'; off][..], tail, b"x"].concat());
                 }
@@ -628,6 +628,9 @@ pub fn check(ctx: &Ctx) {
                     let notations: Vec<usize> = if (hash == hashes[0] && oi <= 2) || (!quick && *key != KeyKind::Rsa2048V4 && oi <= 4) {
                         if quick {
                             vec![0, 100, 150, 60_000]
+                        } else if deep && oi <= 2 {
+                            // every area size around the 1/2-octet and 2/5-octet subpacket length edges
+                            (0..=2usize).chain(100..=200).chain(8300..=8345).chain([16_000, 60_000, 65_300, 65_399, 65_400]).collect()
                         } else {
                             vec![0, 1, 100, 143, 144, 150, 8300, 8340, 60_000, 65_400]
                         }
@@ -656,7 +659,7 @@ pub fn check(ctx: &Ctx) {
     ctx.run_space(
         "created_and_verified",
         true,
-        "14 signature kinds (0x00, 0x01, 0x10-0x13 over user ids, 0x13 over a user attribute, third-party 0x13, 0x18, 0x28, 0x19, 0x1F, 0x20, 0x30) x 9 signer keys (v4/v6; Ed25519, Ed448, ECDSA P-256/P-521, EdDSA-legacy, RSA v4 and v6 with SHA-224 among the hashes) x hashes x objects (documents incl. empty and mixed line endings; user ids of length 0, 1, 25, 255, 256 (70000 thorough); attributes) x hashed-area shapes (default, notation data sizing the area to 100..65400 octets, critical bit): created through the public signing API with a recording SigningKey, re-parsed and verified with a recording VerifyingKey; both digests = RFC 9580 5.2.4 digest computed from the wire bytes",
+        "14 signature kinds (0x00, 0x01, 0x10-0x13 over user ids, 0x13 over a user attribute, third-party 0x13, 0x18, 0x28, 0x19, 0x1F, 0x20, 0x30) x 9 signer keys (v4/v6; Ed25519, Ed448, ECDSA P-256/P-521, EdDSA-legacy, RSA v4 and v6 with SHA-224 among the hashes) x hashes x objects (documents incl. empty and mixed line endings; user ids of length 0, 1, 25, 255, 256 (70000 thorough); attributes) x hashed-area shapes (default, notation data sizing the area to 100..65400 octets - thorough: every size 100..200 and 8300..8345 -, critical bit): created through the public signing API with a recording SigningKey, re-parsed and verified with a recording VerifyingKey; both digests = RFC 9580 5.2.4 digest computed from the wire bytes",
         specs.into_par_iter(),
         run_created,
     );
